@@ -1300,10 +1300,26 @@ from panoptica.metrics import Metric
 from panoptica.utils.label_group import LabelGroup
 from panoptica.utils.segmentation_class import SegmentationClassGroups
 out, names, kill_after = sys.argv[2], json.loads(sys.argv[3]), int(sys.argv[4])
-ev = Panoptica_Evaluator(expected_input=InputType.UNMATCHED_INSTANCE, instance_matcher=NaiveThresholdMatching(matching_threshold=0.3),
-        segmentation_class_groups=SegmentationClassGroups({"liver": LabelGroup([1]), "kidney": LabelGroup([2]), "spleen": LabelGroup([3]),
-                                                           "lesion": LabelGroup([4, 5])}),
-        instance_metrics=[Metric.DSC, Metric.IOU], global_metrics=[Metric.DSC])
+bystanders = len(sys.argv) > 5 and sys.argv[5] == "1"
+defaults = len(sys.argv) > 5
+groups = {"liver": LabelGroup([1]), "kidney": LabelGroup([2]), "spleen": LabelGroup([3]), "lesion": LabelGroup([4, 5])}
+if bystanders:
+    # other panoptica objects the same program constructs first (they must not influence this session: a restarted process
+    # does not construct them); the session's own evaluator then uses the library's default metric lists
+    for kw in ({"decision_metric": Metric.clDSC, "decision_threshold": 0.5}, {"decision_metric": Metric.IOU, "decision_threshold": 0.5},
+               {"instance_metrics": [Metric.RVD], "global_metrics": []}):
+        try:
+            with contextlib.redirect_stdout(io.StringIO()):
+                Panoptica_Evaluator(expected_input=InputType.MATCHED_INSTANCE, **kw)
+        except Exception:
+            pass
+if defaults:
+    ev = Panoptica_Evaluator(expected_input=InputType.UNMATCHED_INSTANCE, instance_matcher=NaiveThresholdMatching(matching_threshold=0.3),
+            segmentation_class_groups=SegmentationClassGroups(groups))
+else:
+    ev = Panoptica_Evaluator(expected_input=InputType.UNMATCHED_INSTANCE, instance_matcher=NaiveThresholdMatching(matching_threshold=0.3),
+            segmentation_class_groups=SegmentationClassGroups(groups),
+            instance_metrics=[Metric.DSC, Metric.IOU], global_metrics=[Metric.DSC])
 def subject(name):
     i = sum(map(ord, name))
     ref = np.zeros((12, 24), np.uint8); pred = np.zeros_like(ref)
@@ -1322,7 +1338,7 @@ print("done")
 """
 
 
-def restart_smoke(rng, n_subjects=4):
+def restart_smoke(rng, n_subjects=4, default_metrics=None):
     """sessions in separate interpreter processes with DIFFERENT hash seeds on one output file: session 1 is killed after k subjects,
     session 2 resubmits everything; reference: one uninterrupted session.  -> (lines, sequential lines, report)"""
     import json
@@ -1339,13 +1355,19 @@ def restart_smoke(rng, n_subjects=4):
     seeds = rng.sample(range(1, 1000), 3)
     rep = {"killed_after": k, "hash_seeds": seeds, "steps": []}
 
-    def run(path, kill, seed):
-        p = subprocess.run([sys.executable, str(script), str(common.REPO), path, json.dumps(names), str(kill)], capture_output=True, text=True,
+    if default_metrics is None:
+        default_metrics = rng.random() < 0.5
+    # the session's evaluator uses the default metric lists; the FIRST process also builds bystanders
+    rep["default_metrics_and_bystanders_in_first_process"] = default_metrics
+
+    def run(path, kill, seed, first=False):
+        extra = ["1" if first else "2"] if default_metrics else []
+        p = subprocess.run([sys.executable, str(script), str(common.REPO), path, json.dumps(names), str(kill)] + extra, capture_output=True, text=True,
                            timeout=600, env=dict(os.environ, PYTHONHASHSEED=str(seed)))
         rep["steps"].append({"exit": p.returncode, "stderr": p.stderr.strip().splitlines()[-1:] if p.returncode not in (0, 9) else []})
         return p.returncode
     try:
-        run(out, k, seeds[0])
+        run(out, k, seeds[0], first=True)
         run(out, -1, seeds[1])
         run(seq, -1, seeds[2])
     except subprocess.TimeoutExpired:
@@ -1400,11 +1422,20 @@ class Ev:
     segmentation_class_groups_names = ["g"]
     resulting_metric_keys = ["m"]
     die = False
+    fail_plan = None           # a function to run inside the evaluation before it raises an ordinary exception
 
     def evaluate(self, pred, ref, **k):
         if Ev.die:
             raise Interrupted()
+        if Ev.fail_plan is not None:
+            plan, Ev.fail_plan = Ev.fail_plan, None
+            plan()
+            raise ValueError("the evaluation of this subject failed")
         return {"g": (Res(int(pred)), None)}
+
+
+class OtherSetup(Ev):
+    resulting_metric_keys = ["m", "m2"]
 
 
 def rows(path):
@@ -1414,16 +1445,6 @@ def rows(path):
         return [r for r in csv.reader(f, delimiter="\t", lineterminator="\n")]
 
 
-def submit(agg, subjects, name, dies=False):
-    Ev.die = dies
-    try:
-        agg.evaluate(subjects.index(name) + 1, 0, name)
-    except Interrupted:
-        pass
-    finally:
-        Ev.die = False
-
-
 def run_case(case, d):
     subjects, ops = case["subjects"], case["ops"]
     out, sib = os.path.join(d, case["file"]), os.path.join(d, case["sibling"])
@@ -1431,17 +1452,61 @@ def run_case(case, d):
     sessions = [Panoptica_Aggregator(Ev(), out)]
     neighbour = Panoptica_Aggregator(Ev(), sib)
     trace = []
-    for k, step in enumerate(ops):
-        if step[0] == "new":
+    notes = []
+
+    def value(name):
+        return subjects.index(name) + 1 if name in subjects else 0
+
+    def submit(agg, name, dies=False):
+        Ev.die = dies
+        try:
+            agg.evaluate(value(name), 0, name)
+        except Interrupted:
+            pass
+        finally:
+            Ev.die = False
+
+    def snap(model_index):
+        trace.append([model_index, rows(out), rows(buf)])
+
+    def step(st):
+        # st = [kind, model index after the step, ...]
+        kind, mi = st[0], st[1]
+        if kind == "new":
             sessions.append(Panoptica_Aggregator(Ev(), out))
-        else:
-            submit(sessions[step[1]], subjects, step[2], dies=step[0] == "die")
-        trace.append([rows(out), rows(buf)])
+        elif kind == "refused":
+            try:
+                Panoptica_Aggregator(OtherSetup(), out)
+                notes.append("a session with a different setup was accepted")
+            except AssertionError:
+                pass
+        elif kind in ("ok", "die"):
+            submit(sessions[st[2]], st[3], dies=kind == "die")
+        elif kind == "fail":
+            inner = st[4]
+
+            def plan():
+                snap(mi)                      # the claim of the failing subject is in the buffer
+                for sub in inner:
+                    step(sub)
+            Ev.fail_plan = plan
+            try:
+                sessions[st[2]].evaluate(0, 0, st[3])
+            except ValueError:
+                pass
+            finally:
+                Ev.fail_plan = None
+            snap(st[5])                       # after the failed call returned: the state of its last inner step
+            return
+        snap(mi)
+
+    for k, st in enumerate(ops):
+        step(st)
         if k < len(subjects):
-            submit(neighbour, subjects, subjects[k])                    # the neighbour works on its own file in between
+            submit(neighbour, subjects[k])                    # the neighbour works on its own file in between
     for name in subjects[len(ops):]:
-        submit(neighbour, subjects, name)
-    return {"out": rows(out), "sib": rows(sib), "trace": trace}
+        submit(neighbour, name)
+    return {"out": rows(out), "sib": rows(sib), "trace": trace, "notes": notes}
 
 
 cases = json.loads(open(sys.argv[2]).read())
@@ -1464,57 +1529,80 @@ NAME_POOLS = [["s1", "s2", "s3", "s4", "s5"], ["aa", "bb", "cc", "dd"], ['q"1', 
 def history_case(rng):
     """a sequential history over several LIVE sessions of one output file: ["new"] creates another aggregator on the file (the older
     ones stay in use), ["ok", i, name] / ["die", i, name] submit a subject through session i (die: the evaluation is interrupted
-    after the claim); afterwards a fresh session and every old one resubmit everything"""
+    after the claim), ["fail", i, name, inner] an evaluation that RAISES an ordinary exception after the inner submissions ran while
+    it was in progress (name is a subject nobody else submits), ["refused"] a constructor with a different setup on the same file
+    (it must be refused without touching anything); afterwards a fresh session and every old one resubmit everything"""
     pool = list(rng.choice(NAME_POOLS))
-    h, n_sessions = [], 1
+    h, n_sessions, n_fail = [], 1, 0
     for _ in range(rng.randint(3, 9)):
         c = rng.random()
-        if c < 0.22:
+        if c < 0.18:
             h.append(["new"])
             n_sessions += 1
+        elif c < 0.26:
+            h.append(["refused"])
+        elif c < 0.38:
+            n_fail += 1
+            inner = [[rng.choice(["ok", "ok", "die"]), rng.randrange(n_sessions), rng.choice(pool)] for _k in range(rng.randint(1, 2))]
+            h.append(["fail", rng.randrange(n_sessions), "failing-%d" % n_fail, inner])
         else:
-            h.append(["die" if c < 0.45 else "ok", rng.randrange(n_sessions), rng.choice(pool)])
+            h.append(["die" if c < 0.55 else "ok", rng.randrange(n_sessions), rng.choice(pool)])
     f, sib = rng.choice([("a.tsv", "b.tsv"), ("run.fold0.tsv", "run.fold1.tsv"), ("exp.tsv", "exp.v1.tsv")])
     return {"history_case": True, "subjects": pool, "history": h, "file": f, "sibling": sib}
 
 
 def history_ops(case):
-    """the whole operation list of a case: the history, then a fresh session resubmitting every subject, then every older session
-    doing the same (nothing may be added any more)"""
+    """-> (script steps, model operations): the whole run = the history, then a fresh session resubmitting every subject, then every
+    older session doing the same (nothing may be added any more).  Model operations carry no session index (sessions have no state);
+    a refused constructor is no operation at all; a failing evaluation is its claim followed by the inner submissions.  Every script
+    step names the index of the model state the files must be in after it."""
+    model = []          # [0] | [1, name, v] | [2, name]
+    subs = case["subjects"]
+
+    def m_of(st):
+        if st[0] == "new":
+            model.append([0])
+        elif st[0] == "ok":
+            model.append([1, enc_name(st[2]), subs.index(st[2]) + 1 if st[2] in subs else 0])
+        elif st[0] == "die":
+            model.append([2, enc_name(st[2])])
+        return len(model) - 1        # index of the state after this operation (-1: the initial state)
+
+    def conv(st):
+        if st[0] == "refused":
+            return ["refused", len(model) - 1]
+        if st[0] == "fail":
+            model.append([2, enc_name(st[2])])
+            mi = len(model) - 1
+            inner = [conv(x) for x in st[3]]
+            return ["fail", mi, st[1], st[2], inner, len(model) - 1]
+        mi = m_of(st)
+        return [st[0], mi] + list(st[1:])
     h = [list(st) for st in case["history"]]
+    steps = [conv(st) for st in h]
     n_sessions = 1 + sum(1 for st in h if st[0] == "new")
-    ops = h + [["new"]] + [["ok", n_sessions, n] for n in case["subjects"]]
+    tail = [["new"]] + [["ok", n_sessions, n] for n in subs]
     for i in range(n_sessions):
-        ops += [["ok", i, n] for n in case["subjects"]]
-    return ops
+        tail += [["ok", i, n] for n in subs]
+    steps += [conv(st) for st in tail]
+    return steps, model
 
 
 def history_model_input(case):
-    """engine input of op 1704: no rows at the start; operations without the session index (sessions carry no state)"""
-    ops = []
-    for st in history_ops(case):
-        if st[0] == "new":
-            ops.append([0])
-        elif st[0] == "ok":
-            ops.append([1, enc_name(st[2]), case["subjects"].index(st[2]) + 1])
-        else:
-            ops.append([2, enc_name(st[2])])
-    return [[], ops]
+    """engine input of op 1704: no rows at the start; the model operations of the whole run"""
+    return [[], history_ops(case)[1]]
 
 
 def history_trace_differs(case, res, model_out):
-    """first step at which the files of the implementation are not the model's state, or None"""
+    """first observation at which the files of the implementation are not the model's state, or None"""
     if "error" in res:
         return None
-    ops = history_ops(case)
-    for k, (impl, mod) in enumerate(zip(res.get("trace", []), model_out)):
-        rows_i, buf_i = impl
+    for k, (mi, rows_i, buf_i) in enumerate(res.get("trace", [])):
+        mod = model_out[mi] if mi >= 0 else [[], []]
         got_out = None if not rows_i else [[enc_name(r[0]), int(r[1]) if len(r) == 2 and r[1].lstrip("-").isdigit() else r[1:]] for r in rows_i[1:]]
         got_buf = None if buf_i is None else [enc_name(r[0] if r else "") for r in buf_i]
         if got_out != mod[0] or got_buf != mod[1]:
-            return {"step": k, "op": ops[k], "implementation": {"out": rows_i, "buf": buf_i}, "model": mod}
-    if len(res.get("trace", [])) != len(model_out):
-        return {"step": min(len(res.get("trace", [])), len(model_out)), "op": "trace length", "implementation": len(res.get("trace", [])), "model": len(model_out)}
+            return {"observation": k, "model_state": mi, "implementation": {"out": rows_i, "buf": buf_i}, "model": mod}
     return None
 
 
@@ -1526,7 +1614,7 @@ def history_run(cases):
     d = tempfile.mkdtemp(dir=str(common.WORK))
     script = Path(d) / "histories.py"
     script.write_text(SESSION_HISTORIES)
-    (Path(d) / "cases.json").write_text(json.dumps([dict(c, ops=history_ops(c)) for c in cases]))
+    (Path(d) / "cases.json").write_text(json.dumps([dict(c, ops=history_ops(c)[0]) for c in cases]))
     try:
         p = subprocess.run([sys.executable, str(script), str(common.REPO), str(Path(d) / "cases.json"), str(Path(d) / "res.json")],
                            capture_output=True, text=True, timeout=900, env=dict(os.environ, PYTHONHASHSEED="0"))
@@ -1541,7 +1629,7 @@ def history_problems(case, res):
     """the property's outcome: header once, exactly one complete row per subject with the values of an uninterrupted run; sibling too"""
     if "error" in res:
         return ["a session history raised " + res["error"]]
-    probs = []
+    probs = list(res.get("notes", []))
     want = {name: [name, str(i + 1)] for i, name in enumerate(case["subjects"])}
     for key, what in (("out", "output file"), ("sib", "sibling output file")):
         lines = res.get(key)
